@@ -218,6 +218,10 @@ func checkC04(P *Prog, r *Result) {
 	// visiting its children (a struct that returns on an empty record instead of reading its fields from an empty
 	// provider) never asks whether its required fields are present (C01's rule)
 	shareRule(P, r, checkC01, "C01/no-silent-exit", nil, "C04/absent-decision-reached", 10)
+	// "the Default is then tested like any other value" holds element by element: every position 0 <= i < len of the
+	// list the node works on - the input's or the default's - goes to the element schema (C03's rule; a default that is
+	// bulk-copied into the destination and skipped by the element loop is never tested)
+	shareRule(P, r, checkC03, "C03/index-agreement", nil, "C04/default-elements-reach-their-schema", 1)
 }
 
 func (P *Prog) checkZeroBinding(r *Result, sites []*ssa.Function) {
